@@ -130,6 +130,7 @@ type FuncContract struct {
 	Line     int
 	Imports  []*ast.ImportSpec
 	Instance string // for generic functions: instantiation to verify, e.g. "[[]string,string]"
+	Reveal   []string // recursive spec functions of OTHER packages (pkg.name) whose unfolding axioms are given to this function's queries
 }
 
 // CallbackSpec: `callback F(params) log NAME EXPR` — each call of the function-typed parameter F
@@ -177,7 +178,7 @@ type ContractFile struct {
 var clauseKeywords = map[string]bool{
 	"requires": true, "ensures": true, "modifies": true, "pure": true, "observer": true, "loop": true,
 	"inline": true, "fresh": true, "uses": true, "induct": true, "decreases": true, "witness": true, "trusted": true,
-	"trigger": true, "instance": true, "nooverflow": true, "assert": true, "wraparound": true, "effect": true, "callback": true, "fuel": true,
+	"trigger": true, "instance": true, "nooverflow": true, "assert": true, "wraparound": true, "effect": true, "callback": true, "fuel": true, "reveal": true,
 }
 
 // ScanContractFile extracts the //@ blocks of a Go source file.
@@ -471,6 +472,8 @@ func (cf *ContractFile) addClause(fc *FuncContract, text string, line int) error
 		fc.Fresh = append(fc.Fresh, splitTopComma(rest)...)
 	case "uses":
 		fc.Uses = append(fc.Uses, splitTopComma(rest)...)
+	case "reveal":
+		fc.Reveal = append(fc.Reveal, splitTopComma(rest)...)
 	case "induct":
 		fc.Induct = append(fc.Induct, strings.Split(rest, ";")...)
 	case "trigger":
@@ -516,8 +519,8 @@ func (cf *ContractFile) addClause(fc *FuncContract, text string, line int) error
 		fc.Effects = append(fc.Effects, &Clause{Kind: "effect", Label: rest[:k], Loop: -1, Expr: strings.TrimSpace(rest[k:]), Line: line})
 	case "fuel":
 		n, err := strconv.Atoi(strings.TrimSpace(rest))
-		if err != nil || n < 1 || n > 6 {
-			return bad("fuel must be 1..6")
+		if err != nil || n < 1 || n > 12 {
+			return bad("fuel must be 1..12")
 		}
 		fc.Fuel = n
 	case "wraparound":
